@@ -27,6 +27,22 @@ Definition mask (s : list Z) : list bool := map is_res s.    (* true = residue *
 Definition strip (s : list Z) : list Z := filter is_res s.   (* the ungapped string *)
 Definition zmem (x : Z) (l : list Z) : bool := existsb (Z.eqb x) l.
 
+(** row names are strings; lookup is by string equality (names may be prefixes
+    or substrings of one another, that never matters) *)
+Definition name := list Z.
+Fixpoint name_eqb (a b : name) : bool :=
+  match a, b with
+  | [], [] => true
+  | x :: a', y :: b' => (x =? y) && name_eqb a' b'
+  | _, _ => false
+  end.
+Definition nmem (x : name) (l : list name) : bool := existsb (name_eqb x) l.
+
+(** the argument forms of [take_seqs]: a list of names, or one name as a plain
+    [str] ([if type(seqs) == str: seqs = [seqs]] l.615) *)
+Inductive names_arg := NList (l : list name) | NStr (s : name).
+Definition norm_names (a : names_arg) : list name := match a with NList l => l | NStr s => [s] end.
+
 (** column predicates of [filtered]: [no_degenerates] keeps a motif column
     whose characters all lie in [chars] ([AllowedCharacters]); [omit_gap_pos]
     keeps it when the fraction of characters lying in [gaps] is [<= num/den]
@@ -41,17 +57,18 @@ Inductive aop :=
 | OIndex (i : Z)                          (* aln[i] *)
 | ORc
 | OAddSelf                                (* aln + aln *)
-| OAddRows (rows : list (list Z))         (* aln + (a new alignment with the same names) *)
+| OAddRows (other : list (name * list Z))  (* aln + other: the right operand as its own ordered named rows *)
 | OAddSlices (a b c d : Z)                (* aln[a:b] + aln[c:d] *)
 | OTakePos (cols : list Z) (negate : bool)
-| OTakeSeqs (names : list Z) (negate : bool)
+| OTakeSeqs (names : names_arg) (negate : bool)
 | OFilter (p : pred) (motif : Z)          (* filtered / no_degenerates / omit_gap_pos *)
-| ODegapRel (name : Z)                    (* get_degapped_relative_to *)
+| ODegapRel (x : name)                    (* get_degapped_relative_to *)
 | OSample (locs : list Z) (motif : Z)     (* sample with the given locations *)
 | OToRna
 | OToDna
 | OToType                                 (* class conversion there and back: rebuilt from to_dict() *)
-| OWindow (window step k : Z).            (* the k-th alignment of sliding_windows(window, step) *)
+| OWindow (window step k : Z)             (* the k-th alignment of sliding_windows(window, step) *)
+| ORename (mp : list (name * name)).      (* rename_seqs(renamer): renamer = lookup in [mp], identity elsewhere *)
 
 (** ** pinned / repaired behaviours *)
 Record variant := mkVar {
@@ -155,7 +172,7 @@ Definition row_to_kind (r : arow) (target : kind) : res arow :=
 
 (** ** alignments: insertion-ordered (name, row) *)
 
-Definition oalign := list (Z * arow).
+Definition oalign := list (name * arow).
 
 Fixpoint mapM {A B} (f : A -> res B) (l : list A) : res (list B) :=
   match l with
@@ -179,28 +196,32 @@ Definition mk_align (a : oalign) : res oalign := if one_length a then Ok a else 
 (** [len(aln)] = [seq_len] = the largest [len(Aligned)] *)
 Definition al_len (a : oalign) : Z := fold_right (fun nr acc => Z.max (row_len (snd nr)) acc) 0 a.
 
+(** [renamer(name)] *)
+Definition rename_of (mp : list (name * name)) (n : name) : name :=
+  match filter (fun p => name_eqb (fst p) n) mp with (_, n') :: _ => n' | [] => n end.
+
 Definition al_kind (a : oalign) : kind := match a with (_, r) :: _ => skind (adata r) | [] => KOther end.
 
-Definition find_orow (n : Z) (a : oalign) : option arow :=
-  match filter (fun nr => fst nr =? n) a with (_, r) :: _ => Some r | [] => None end.
+Definition find_orow (n : name) (a : oalign) : option arow :=
+  match filter (fun nr => name_eqb (fst nr) n) a with (_, r) :: _ => Some r | [] => None end.
 
 (** the class constructor given strings (one per existing name) *)
-Definition rebuild (k : kind) (names : list Z) (strs : list (list Z)) : res oalign :=
+Definition rebuild (k : kind) (names : list name) (strs : list (list Z)) : res oalign :=
   bind (mapM (row_of_string k) strs) (fun rows => mk_align (combine names rows)).
 
 Definition concatM (l : list (res (list Z))) : res (list Z) :=
   fold_right (fun r acc => bind r (fun s => bind acc (fun t => Ok (s ++ t)))) (Ok []) l.
 
-(** [__add__] l.919 row by row *)
-Fixpoint add_rows (vr : variant) (same : bool) (a b : oalign) : res oalign :=
-  match a, b with
-  | (n, r1) :: a', (_, r2) :: b' =>
-      bind (row_add vr same r1 r2) (fun r => bind (add_rows vr same a' b') (fun t => Ok ((n, r) :: t)))
-  | _, _ => Ok []
-  end.
+(** [__add__] l.919: for every name of [self], [self.named_seqs[name] + other.named_seqs[name]];
+    "Right alignment missing" is a ValueError *)
+Definition add_named (vr : variant) (same : bool) (a b : oalign) : res oalign :=
+  mapM (fun nr => match find_orow (fst nr) b with
+                  | None => Err E_Value
+                  | Some r2 => bind (row_add vr same (snd nr) r2) (fun r => Ok (fst nr, r))
+                  end) a.
 
 Definition al_add (vr : variant) (same : bool) (a b : oalign) : res oalign :=
-  if negb (zlen a =? zlen b) then Err E_Value else bind (add_rows vr same a b) mk_align.
+  if negb (zlen a =? zlen b) then Err E_Value else bind (add_named vr same a b) mk_align.
 
 Definition al_slice (vr : variant) (a : oalign) (x y : option Z) : res oalign :=
   bind (map_rowsM (fun r => row_getitem_slice vr r x y) a) mk_align.
@@ -274,16 +295,16 @@ Definition al_apply (vr : variant) (a : oalign) (o : aop) : res oalign :=
   | OIndex i => bind (map_rowsM (fun r => row_getitem_int vr r i) a) mk_align
   | ORc => bind (map_rowsM row_rc a) mk_align
   | OAddSelf => al_add vr true a a
-  | OAddRows rows =>
-      if negb (zlen rows =? zlen a) then Err E_Value
-      else bind (rebuild (al_kind a) (map fst a) rows) (fun b => al_add vr false a b)
+  | OAddRows other =>
+      bind (rebuild (al_kind a) (map fst other) (map snd other)) (fun b => al_add vr false a b)
   | OAddSlices x y x' y' =>
       bind (al_slice vr a (Some x) (Some y)) (fun a1 =>
       bind (al_slice vr a (Some x') (Some y')) (fun a2 => al_add vr false a1 a2))
   | OTakePos cols negate => al_take_positions vr a cols negate
-  | OTakeSeqs names negate =>
+  | OTakeSeqs arg negate =>
+      let names := norm_names arg in
       if negate then
-        match filter (fun nr => negb (zmem (fst nr) names)) a with
+        match filter (fun nr => negb (nmem (fst nr) names)) a with
         | [] => Err E_None
         | r => mk_align r
         end
@@ -315,6 +336,11 @@ Definition al_apply (vr : variant) (a : oalign) (o : aop) : res oalign :=
       if (0 <=? i) && (i <? n_windows (al_len a) w st) && (0 <? w) && (0 <? st)
       then al_slice vr a (Some (i * st)) (Some (i * st + w))
       else Err E_None
+  | ORename mp =>
+      (* rename_seqs l.1625: [make_seq(seq=seq.data, name=new_name)] builds a new sequence from the displayed one *)
+      bind (mapM (fun nr =>
+              bind (of_view (fresh (skind (adata (snd nr))) (realise (adata (snd nr))))) (fun d =>
+              Ok (rename_of mp (fst nr), mkRow (amap (snd nr)) d))) a) mk_align
   end.
 
 (** a failing operation leaves the alignment as it was (the harness observes
@@ -325,21 +351,21 @@ Definition al_keep (vr : variant) (a : oalign) (o : aop) : oalign :=
 Definition al_run (vr : variant) (a : oalign) (ops : list aop) : oalign := fold_left (al_keep vr) ops a.
 
 (** [make_aligned_seqs(dict, moltype, array_align=False)] *)
-Definition al_init (k : kind) (rows : list (Z * list Z)) : res oalign :=
+Definition al_init (k : kind) (rows : list (name * list Z)) : res oalign :=
   rebuild k (map fst rows) (map snd rows).
 
 (** [to_dict()] *)
-Definition al_strings (a : oalign) : list (Z * list Z) := map (fun nr => (fst nr, row_gapped (snd nr))) a.
+Definition al_strings (a : oalign) : list (name * list Z) := map (fun nr => (fst nr, row_gapped (snd nr))) a.
 
 (** ** read-only methods that are functions of the rows (default arguments) *)
 
 (** [moltype.gaps] of the DNA / RNA / protein moltypes: '-' and '?' *)
 Definition is_gapch (c : Z) : bool := (c =? 45) || (c =? 63).
 
-Definition al_names (a : oalign) : list Z := map fst a.
+Definition al_names (a : oalign) : list name := map fst a.
 Definition al_num_seqs (a : oalign) : Z := zlen a.
 (** [get_gapped_seq(name)] *)
-Definition al_get_gapped_seq (a : oalign) (n : Z) : option (list Z) :=
+Definition al_get_gapped_seq (a : oalign) (n : name) : option (list Z) :=
   match find_orow n a with Some r => Some (row_gapped r) | None => None end.
 (** [iter_positions] l.4806: [seqs = list(map(str, aligned_objs))], then [seq[pos]] for [pos in range(seq_len)] *)
 Definition al_positions (a : oalign) : list (list Z) :=
@@ -355,5 +381,23 @@ Definition al_count_gaps_per_pos (a : oalign) : list Z :=
 Definition al_is_ragged (a : oalign) : bool :=
   match a with [] => false | (_, r) :: _ => negb (forallb (fun nr => row_len (snd nr) =? row_len r) a) end.
 (** [degap()] l.1135: [data.degap()] of every row *)
-Definition al_degap (a : oalign) : list (Z * list Z) :=
+Definition al_degap (a : oalign) : list (name * list Z) :=
   map (fun nr => (fst nr, filter (fun c => negb (is_gapch c)) (realise (adata (snd nr))))) a.
+
+(** [count_gaps_per_seq] l.2851 (default flags): the gap array restricted to the columns holding a gap, summed per row *)
+Definition al_count_gaps_per_seq (a : oalign) : list Z :=
+  let ga := al_gap_array a in
+  let gap_cols := filter (fun j => 0 <? zlen (filter (fun row => znth false row j) ga)) (zrange 0 (al_len a)) in
+  map (fun row => zlen (filter (fun j => znth false row j) gap_cols)) ga.
+(** number of distinct elements, [len(set(column))] *)
+Fixpoint n_distinct (l : list Z) : Z :=
+  match l with [] => 0 | x :: t => (if zmem x t then 0 else 1) + n_distinct t end.
+(** [variable_positions] l.3377 (include_gap_motif=True) over [iter_positions] *)
+Definition al_variable_positions (a : oalign) : list Z :=
+  map fst (filter (fun pc => 1 <? n_distinct (snd pc)) (combine (zrange 0 (al_len a)) (al_positions a))).
+(** [get_lengths] l.1219 (defaults): per row, the number of canonical characters of the gapped sequence *)
+Definition al_get_lengths (canon : list Z) (a : oalign) : list (name * Z) :=
+  map (fun nr => (fst nr, count_in canon (row_gapped (snd nr)))) a.
+(** [Alignment.get_seq(name)] l.4792: the ungapped sequence [named_seqs[name].data] *)
+Definition al_get_seq (a : oalign) (n : name) : option (list Z) :=
+  match find_orow n a with Some r => Some (realise (adata r)) | None => None end.
